@@ -85,6 +85,24 @@ def theorem_names(prop: str) -> list[str]:
     return [f"ThaiLintModel.{prop}.{m}" for m in re.findall(r"^\s*theorem\s+([^\s:(\[{]+)", src, re.M)]
 
 
+def gen_modules_of(prop: str) -> set[str]:
+    """names X of the regenerated modules ThaiLintModel.Gen.X that the property's Lean files import (transitively)"""
+    todo = [LEAN / "ThaiLintModel" / prop / n for n in ("Props.lean", "Drv.lean")]
+    seen, gens = set(), set({"C06": ["Cli"]}.get(prop, []))      # C06's harness asks C15's model which command owns a rule id
+    while todo:
+        f = todo.pop()
+        if f in seen or not f.exists():
+            continue
+        seen.add(f)
+        for m in re.findall(r"^import (ThaiLintModel\.[\w.]+)", f.read_text(), re.M):
+            parts = m.split(".")
+            if parts[1] == "Gen":
+                gens.add(parts[2])
+            else:
+                todo.append(LEAN.joinpath(*parts).with_suffix(".lean"))
+    return gens
+
+
 def build_and_audit(prop: str, tier: str) -> ProofStatus:
     """T1 regenerate -> lake build driver -> lake build proofs -> audit (grep + #print axioms)."""
     st = ProofStatus()
@@ -97,8 +115,10 @@ def build_and_audit(prop: str, tier: str) -> ProofStatus:
             st.tables = json.loads((LEAN / "ThaiLintModel" / "Gen" / "status.json").read_text())
         except Exception:  # noqa: BLE001
             st.tables = {}
+        used = gen_modules_of(prop)
         for k, v in st.tables.items():
-            if v.startswith("broken"):
+            # only the regenerated tables this property's model and theorems import are its obligations
+            if v.startswith("broken") and k.split(".")[0] in used:
                 st.failed.append(f"T1 table {k}: {v}")
         rc, out = _run(["lake", "build", "driver"], LEAN)
         st.log += out
